@@ -1449,6 +1449,16 @@ class TLSConnection(TLSRecordLayer):
             signature_scheme = certificate_verify.signatureAlgorithm
             self.serverSigAlg = signature_scheme
 
+            cl_sig_algs = clientHello.getExtension(
+                ExtensionType.signature_algorithms)
+            if not cl_sig_algs or not cl_sig_algs.sigalgs or \
+                    signature_scheme not in cl_sig_algs.sigalgs:
+                for result in self._sendError(
+                        AlertDescription.illegal_parameter,
+                        "Server selected signature algorithm we didn't "
+                        "advertise"):
+                    yield result
+
             signature_context = KeyExchange.calcVerifyBytes((3, 4),
                                                             srv_cert_verify_hh,
                                                             signature_scheme,
